@@ -35,7 +35,17 @@ RULE = ("library: interpolating Lin/Cubic/Akima splines on uniform and "
         "csg_resample grids wider than the data (up to 1.5 grid lengths on "
         "either side) with --derivative for every type x boundary (+fit): "
         "5-point differences of the value table outside the data "
-        "(*/derivative-outside-data). Object reuse (*-reuse/*): one spline "
+        "(*/derivative-outside-data). Fit mode with cut / --nocut "
+        "(resample/fit/<lin|cubic>/<cut|nocut>/*): fit-grid ends on an input "
+        "abscissa (inner / at the table edge), strictly between two abscissae "
+        "or beyond the data, tables extending beyond the fit range on the "
+        "left / right / both / neither, out-of-range ordinates on or far off "
+        "the in-range function, in-range data in the spline space or noisy; "
+        "oracle: independent Householder-QR least-squares fit (cardinal "
+        "natural-cubic / hat basis on the fit grid) of exactly the data with "
+        "fitgrid_min <= x <= fitgrid_max (all data with --nocut), evaluated on "
+        "--grid, plus reproduction of in-space data; classes are counted in "
+        "the counters fitcut/*. Object reuse (*-reuse/*): one spline "
         "object Interpolate()d / Fit()ted 2-3 times with other sizes, grids, "
         "ordinates and boundary settings (setBC / setBCInt), Fit after "
         "Interpolate and vice versa, GenerateGrid+Fit twice, must answer like "
@@ -188,6 +198,32 @@ def hat_spline(xk, fk):
     return ev
 
 
+def lstsq(Bm, y):
+    """least-squares solution of Bm c = y by Householder QR (plain python);
+    returns (c, condition estimate from the diagonal of R)"""
+    m, n = len(Bm), len(Bm[0])
+    A = [row[:] + [yy] for row, yy in zip(Bm, y)]
+    diag = []
+    for k in range(n):
+        nrm = math.sqrt(sum(A[i][k] ** 2 for i in range(k, m)))
+        if nrm == 0.0:
+            return None, float("inf")
+        alpha = -nrm if A[k][k] >= 0 else nrm
+        v = [A[i][k] for i in range(k, m)]
+        v[0] -= alpha
+        vn = sum(t * t for t in v)
+        if vn > 0:
+            for j in range(k, n + 1):
+                d = 2 * sum(v[i - k] * A[i][j] for i in range(k, m)) / vn
+                for i in range(k, m):
+                    A[i][j] -= d * v[i - k]
+        diag.append(abs(A[k][k]))
+    c = [0.0] * n
+    for k in range(n - 1, -1, -1):
+        c[k] = (A[k][n] - sum(A[k][j] * c[j] for j in range(k + 1, n))) / A[k][k]
+    return c, max(diag) / min(diag)
+
+
 def dec(micro):
     """exact decimal string of an integer number of 1e-6 units"""
     s = "-" if micro < 0 else ""
@@ -301,7 +337,11 @@ class Scenario:
                 self.sc_interp(periodic=True)
             elif fam in (3, 4):
                 self.sc_fine()
-            elif fam in (5, 6):
+            elif fam == 6:
+                self.sc_fitcut(self.idx // 10)
+            elif fam == 5 and (self.idx // 10) % 2 == 1:
+                self.sc_fitcut(None)
+            elif fam == 5:
                 self.sc_fit()
             elif fam == 7:
                 if self.idx % 40 == 7:
@@ -627,6 +667,164 @@ class Scenario:
         self.count(fam + "_derivative_points", ncmp)
         if ncmp >= 3:
             self.res["nontrivial"] += 1
+
+    def sc_fitcut(self, q):
+        """fit mode with the fit-grid ends on / between / beyond the input
+        abscissae, data beyond the fit range on either side (on or far off the
+        in-range function), default cut and --nocut. Oracle: independent
+        least-squares fit (cardinal natural-cubic / hat basis on the fit grid,
+        Householder QR) of exactly the data the documented cut keeps
+        (fitgrid_min <= x <= fitgrid_max; all points with --nocut)."""
+        r = self.rng
+        CL = ["b", "a_inner", "c", "a_edge"]
+        if q is None:
+            cmax, cmin = r.choice(CL), r.choice(CL)
+            t = r.choice(["linear", "cubic"])
+            off = r.random() < 0.6
+            nocut = r.random() < 0.35
+            noisy = r.random() < 0.4
+        else:                                   # deterministic cycle
+            cmax, cmin = CL[q % 4], CL[(q // 2 + 1) % 4]
+            t = ["linear", "cubic"][(q // 4 + q) % 2]
+            off = q % 3 != 2
+            nocut = q % 5 == 4
+            noisy = q % 7 == 3
+        hm = r.choice([2000, 5000, 10000, 20000, 50000, 100000])
+        u = hm // 20                            # position unit (micro)
+        g = r.randint(1 if t == "linear" else 2, 6)   # fit intervals
+        # positions in units of u relative to the first input abscissa
+        j0 = r.randint(3, 8)
+        pmin = {"a_inner": 20 * j0, "a_edge": 0,
+                "b": 20 * j0 + r.randint(1, 19), "c": -r.randint(1, 20)}[cmin]
+        for _ in range(400):
+            Hu = r.randint(80, 200)
+            pmax = pmin + g * Hu
+            if (cmax in ("a_inner", "a_edge")) == (pmax % 20 == 0) or cmax == "c":
+                break
+            if _ % 20 == 19:                    # residue not reachable with this g
+                g = r.randint(1 if t == "linear" else 2, 6)
+        else:
+            self.counter("fitcut_no_layout_skipped")
+            return
+        if cmax == "a_inner":
+            nlast = pmax // 20 + r.randint(3, 8)
+        elif cmax == "a_edge":
+            nlast = pmax // 20
+        elif cmax == "b":
+            nlast = pmax // 20 + r.randint(1, 8)
+        else:
+            nlast = (pmax + 19) // 20 - 1
+        n = nlast + 1
+        k0 = r.choice([0, 0, r.randint(0, 40), r.randint(-40, 40)])
+        self.hm, self.k0, self.n = hm, k0, n
+        self.xm = [(k0 + j) * hm for j in range(n)]
+        self.xs = [float(dec(v)) for v in self.xm]
+        fmin_m, fmax_m = k0 * hm + pmin * u, k0 * hm + pmax * u
+        xk = [float(dec(fmin_m + i * Hu * u)) for i in range(g + 1)]
+        A = math.exp(r.uniform(math.log(1e-2), math.log(1e2)))
+        fk = [A * r.gauss(0, 1) for _ in xk]
+        ref = hat_spline(xk, fk) if t == "linear" else natural_cubic(xk, fk)
+        sig = A * math.exp(r.uniform(math.log(1e-3), math.log(0.3)))
+        self.ys, keep = [], []
+        n_out_l = n_out_r = 0
+        for j in range(n):
+            pj = 20 * j
+            inside = pmin <= pj <= pmax
+            y = ref(self.xs[j])
+            if inside and noisy:
+                y += sig * r.gauss(0, 1)
+            if not inside:
+                n_out_l += pj < pmin
+                n_out_r += pj > pmax
+                if off:
+                    y += A * r.uniform(5, 50) * r.choice([-1, 1])
+            self.ys.append(float("%.12g" % y))
+            keep.append(inside or nocut)
+        self.fl = [r.choice("iou") for _ in range(n)]
+        self.write_input()
+        # output grid: the fit range (sometimes a little wider), step H/qq
+        qq = r.choice([c for c in (2, 4, 5, 10) if (Hu * u) % c == 0] or [1])
+        so = Hu * u // qq
+        eo = r.choice([0, 0, 1, 2])
+        gmin_m, gmax_m = fmin_m - eo * so, fmax_m + eo * so
+        args = ["--in", "in.tab", "--out", "fit.tab", "--type", t,
+                "--grid", "%s:%s:%s" % (dec(gmin_m), dec(so), dec(gmax_m)),
+                "--fitgrid", "%s:%s:%s" % (dec(fmin_m), dec(Hu * u), dec(fmax_m))]
+        if nocut:
+            args.append("--nocut")
+        if r.random() < 0.3:
+            args += ["--boundaries", "natural"]
+        ext = ("both" if n_out_l and n_out_r else "left" if n_out_l
+               else "right" if n_out_r else "neither")
+        self.desc = {"family": "fit with cut / nocut", "args": args,
+                     "fit_knots": xk, "knot_values": fk,
+                     "fitgrid_min_class": cmin, "fitgrid_max_class": cmax,
+                     "table_extends_beyond_fit_range": ext,
+                     "out_of_range_ordinates": "far off" if off else "on the function",
+                     "noisy_in_range_data": noisy}
+        mode = "nocut" if nocut else "cut"
+        pref = "resample/fit/%s/%s" % ("lin" if t == "linear" else "cubic", mode)
+        rr = self.tool(args, pref)
+        if rr.rc != 0 or rr.timed_out:
+            return
+        xo, yo, fo = read_table(os.path.join(self.dir, "fit.tab"))
+        self.count("resample_fit_%s_%s" % (t, mode))
+        self.counter("fitcut/min:" + cmin)
+        self.counter("fitcut/max:" + cmax)
+        self.counter("fitcut/table_extends:" + ext)
+        self.counter("fitcut/min:%s,max:%s,%s" % (cmin, cmax, mode))
+        if ext != "neither":
+            self.counter("fitcut/out_of_range_ordinates:" + ("far_off" if off else "on_function"))
+        if not self.check_grid(pref, xo, gmin_m * 1e-6, so * 1e-6, gmax_m * 1e-6):
+            return
+        # independent least-squares optimum of the kept data
+        kx = [self.xs[j] for j in range(n) if keep[j]]
+        ky = [self.ys[j] for j in range(n) if keep[j]]
+        cards = []
+        for i in range(g + 1):
+            e = [1.0 if k == i else 0.0 for k in range(g + 1)]
+            cards.append(hat_spline(xk, e) if t == "linear" else natural_cubic(xk, e))
+        Bm = [[cf(x) for cf in cards] for x in kx]
+        coef, cond = lstsq(Bm, ky)
+        if coef is None or not cond < 1e5 or len(kx) < g + 2:
+            self.counter("fitcut_illconditioned_not_judged")
+            return
+        Ysc = max(abs(v) for v in ky) + max(abs(v) for v in fk)
+        Hf = Hu * u * 1e-6
+        worst = None
+        in_space = not noisy and (not nocut or not off or ext == "neither")
+        for i, x in enumerate(xo):
+            d = max(xk[0] - x, x - xk[-1], 0.0) / Hf
+            amp = (1 + d) ** 3
+            want = sum(c * cf(x) for c, cf in zip(coef, cards))
+            tol = 1e-8 * cond * Ysc * amp + 1e-9 * abs(want)
+            if not abs(yo[i] - want) <= tol:
+                dv = abs(yo[i] - want) / tol
+                if worst is None or dv > worst[0]:
+                    worst = (dv, x, yo[i], want)
+            if in_space:
+                f = ref(x)
+                if not abs(yo[i] - f) <= 1e-8 * cond * Ysc * amp + 1e-9 * abs(f):
+                    self.viol(pref + "/spline-space-not-reproduced",
+                              "data sampled from a function of the spline "
+                              "space (whatever lies outside the fit range) are "
+                              "not reproduced by the fit", x=x, got=yo[i],
+                              expected=f, kept_points=len(kx))
+                    in_space = False
+        if worst:
+            self.viol(pref + "/not-least-squares", "csg_resample fit differs "
+                      "from the independent least-squares spline fit of the "
+                      "data the documented cut keeps (fitgrid_min <= x <= "
+                      "fitgrid_max; all data with --nocut)", x=worst[1],
+                      got=worst[2], expected=worst[3],
+                      difference_over_tolerance=worst[0],
+                      kept_points=len(kx), design_condition=cond)
+        self.res["nontrivial"] += 1
+        if self.idx % 30 == 6:
+            self.res["samples"].append({"args": args, "classes": [cmin, cmax, ext],
+                                        "kept_points": len(kx),
+                                        "out_first_rows": list(zip(xo, yo))[:2],
+                                        "oracle_first": sum(c * cf(xo[0]) for c, cf in zip(coef, cards))})
 
     def sc_left(self):
         """output grid entirely left of the data (pure extrapolation)"""
